@@ -94,7 +94,7 @@ Proof.
   rewrite (root_is_summary files Hl Hne), setmap_sums. reflexivity.
 Qed.
 
-(* ---------- summary does not fail when every node counts at least one line ---------- *)
+(* ---------- summary's denominator is positive when every node counts at least one line ---------- *)
 Lemma nodes_sum_nonneg P ns : (forall n, In n ns -> 0 <= nnum n) -> 0 <= nodes_sum P ns.
 Proof.
   induction ns as [|n ns IH]; intros H; cbn [nodes_sum fold_right]; [lia|]. fold (nodes_sum P ns).
@@ -121,15 +121,15 @@ Proof.
   - pose proof (IH (fun g' x Hg' Hx => H g' x (or_intror Hg') Hx) Hf Hc Hn). destruct (counted g); lia.
 Qed.
 
-Theorem summary_total files : (forall f n, In f files -> In n (fnodes f) -> 0 < nnum n) ->
-  exists rows, summary (get_setmap files) = Ok (rows, sloc files).
+(* a non-empty table of positive counts has a positive denominator: every printed percentage is a number *)
+Theorem summary_total files :
+  (exists rows, summary (get_setmap files) = Ok (rows, sloc files)) /\
+  ((forall f n, In f files -> In n (fnodes f) -> 0 < nnum n) -> spec_keys files <> [] -> 0 < sloc files).
 Proof.
-  intros Hpos. destruct (summary (get_setmap files)) as [[rows t]|e] eqn:E.
-  - exists rows. destruct (summary_rows files rows t E) as [-> _]. reflexivity.
-  - exfalso. destruct (summary_err files e E) as [Hz Hk].
-    destruct (spec_keys files) as [|k ks] eqn:Ek; [congruence|].
-    assert (Hin : In k (spec_keys files)) by (rewrite Ek; left; reflexivity).
-    apply spec_keys_In in Hin. destruct Hin as (f & n & Hf & Hc & Hn & _).
-    pose proof (sloc_ge files f n (fun g x Hg Hx => Z.lt_le_incl _ _ (Hpos g x Hg Hx)) Hf Hc Hn).
-    pose proof (Hpos f n Hf Hn). lia.
+  split; [apply summary_never_fails|]. intros Hpos Hk.
+  destruct (spec_keys files) as [|k ks] eqn:Ek; [congruence|].
+  assert (Hin : In k (spec_keys files)) by (rewrite Ek; left; reflexivity).
+  apply spec_keys_In in Hin. destruct Hin as (f & n & Hf & Hc & Hn & _).
+  pose proof (sloc_ge files f n (fun g x Hg Hx => Z.lt_le_incl _ _ (Hpos g x Hg Hx)) Hf Hc Hn).
+  pose proof (Hpos f n Hf Hn). lia.
 Qed.
